@@ -31,4 +31,14 @@ def collect(h):
     if pos_set < 0 or guard < 0:
         raise h.Missing(f"{rel}: cannot locate the fills of getBatchFromStorage")
     items.append(("cache_batch_fill_guarded", "bool", "true" if guard < pos_set else "false", rel + " getBatchFromStorage: positive fill"))
+    body = h.func_body(rel, r"^func \(s \*cachedAppStorage\) CompareAndDelete\(", "cache CompareAndDelete")
+    m = re.search(r"if ok \{(.*?)\n\t\}", body, re.S)
+    if not m:
+        raise h.Missing(f"{rel}: cannot locate the cache update of CompareAndDelete")
+    blk = m.group(1)
+    marker = bool(re.search(r"s\.cache\.Set\(makeKey\(pKey,\s*cCols\),\s*nil\)", blk))
+    drops = bool(re.search(r"s\.cache\.Del\(makeKey\(pKey,\s*cCols\)\)", blk))
+    if marker == drops:
+        raise h.Missing(f"{rel}: CompareAndDelete neither drops the cache entry nor caches the absence; update C07_Cache/Model.v")
+    items.append(("cache_delete_leaves_marker", "bool", "true" if marker else "false", rel + " CompareAndDelete: cache update after a successful delete"))
     return items
